@@ -639,6 +639,65 @@ def gen_get_timestamps(repo, regular):
     return m
 
 
+def gen_scaled_data(repo, scaling):
+    """T23: get_scaled_data end to end: the default and supported scaled dtypes of the two numeric classes, and the order of the steps
+    (default, validate_dtype, get_raw_data window, _convert_data, scale_mode._transform_data); scaled_data = get_scaled_data()"""
+    ast = T.ast
+    NAMES = {"np.single": "f32", "np.float32": "f32", "np.double": "f64", "np.float64": "f64", "np.csingle": "c64", "np.complex64": "c64", "np.cdouble": "c128", "np.complex128": "c128"}
+    m = T.Module(f"{repo}/src/nitypes/waveform/_numeric.py", "Gen.ScaledData", imports=[scaling])
+    m.extra_imports = ["NiVerif.Model.Scaling"]
+    fn = m.find_func("NumericWaveform", "get_scaled_data")
+    got = [ast.unparse(st) for st in fn.body if not (isinstance(st, ast.Expr) and isinstance(st.value, ast.Constant))]
+    want = ["if dtype is None:\n    dtype = self.__class__._get_default_scaled_dtype()", "validate_dtype(dtype, self.__class__._get_supported_scaled_dtypes())",
+            "raw_data = self.get_raw_data(start_index, sample_count)", "converted_data: npt.NDArray[Any] = self._convert_data(dtype, raw_data)",
+            "return self._scale_mode._transform_data(converted_data)"]
+    if got != want:
+        raise T.Untranslatable("NumericWaveform.get_scaled_data is not the expected statement list:\n" + "\n".join(got), fn, m.path)
+    c = m.find_class("NumericWaveform")
+    prop = next(n for n in c.body if isinstance(n, ast.FunctionDef) and n.name == "scaled_data")
+    pb = [ast.unparse(st) for st in prop.body if not (isinstance(st, ast.Expr) and isinstance(st.value, ast.Constant))]
+    if pb != ["return self.get_scaled_data()"] or [ast.unparse(d) for d in prop.decorator_list] != ["property"]:
+        raise T.Untranslatable("NumericWaveform.scaled_data is not `return self.get_scaled_data()`", prop, m.path)
+    tables = {}
+    for path, cls, kind, conv in (("_analog.py", "AnalogWaveform", "analog", "return raw_data.astype(dtype)"), ("_complex.py", "ComplexWaveform", "complex", "return convert_complex(dtype, raw_data)")):
+        mk = T.Module(f"{repo}/src/nitypes/waveform/{path}", "Gen.ScaledData")
+        tup = None
+        for n in mk.tree.body:
+            if isinstance(n, ast.Assign) and len(n.targets) == 1 and ast.unparse(n.targets[0]) == "_SCALED_DTYPES" and isinstance(n.value, ast.Tuple):
+                tup = [ast.unparse(x) for x in n.value.elts]
+        if tup is None or any(x not in NAMES for x in tup):
+            raise T.Untranslatable(f"{cls}: _SCALED_DTYPES {tup}", where=mk.path)
+        d = mk.find_func(cls, "_get_default_scaled_dtype")
+        db = [ast.unparse(st) for st in d.body if not (isinstance(st, ast.Expr) and isinstance(st.value, ast.Constant))]
+        sp = mk.find_func(cls, "_get_supported_scaled_dtypes")
+        sb = [ast.unparse(st) for st in sp.body if not (isinstance(st, ast.Expr) and isinstance(st.value, ast.Constant))]
+        cv = mk.find_func(cls, "_convert_data")
+        cb = [ast.unparse(st) for st in cv.body if not (isinstance(st, ast.Expr) and isinstance(st.value, ast.Constant))]
+        if len(db) != 1 or not db[0].startswith("return ") or db[0][7:] not in NAMES or sb != ["return _SCALED_DTYPES"] or cb != [conv]:
+            raise T.Untranslatable(f"{cls}: default / supported scaled dtypes or _convert_data are not in the expected form: {db} {sb} {cb}", d, mk.path)
+        tables[kind] = (NAMES[db[0][7:]], [NAMES[x] for x in tup])
+    m.out.append("/-- generated from `_get_default_scaled_dtype` of AnalogWaveform / ComplexWaveform -/")
+    m.out.append("@[pygen] def default_scaled_dtype : Model.Scaling.WKind → Model.Scaling.SDt\n  | .analog => Model.Scaling.SDt." + tables["analog"][0] + "\n  | .complex => Model.Scaling.SDt." + tables["complex"][0])
+    m.out.append("")
+    m.out.append("/-- generated from `_SCALED_DTYPES` of the two modules (what `_get_supported_scaled_dtypes` returns) -/")
+    m.out.append("@[pygen] def supported_scaled_dtypes : Model.Scaling.WKind → List Model.Scaling.SDt\n  | .analog => [" + ", ".join("Model.Scaling.SDt." + x for x in tables["analog"][1])
+                 + "]\n  | .complex => [" + ", ".join("Model.Scaling.SDt." + x for x in tables["complex"][1]) + "]")
+    m.out.append("")
+    m.out.append("/-- generated from `NumericWaveform.get_scaled_data`: default dtype, `validate_dtype`, the raw window, `_convert_data`, the scale mode - in this order -/")
+    m.out.append("@[pygen] def get_scaled_data (w : Model.Scaling.Wf) (dtype : Option Model.Scaling.SDt) (start_index sample_count : Option Int) : Except PyErr (Model.Scaling.SDt × List Model.Complex.Elem) :=")
+    m.out.append("  let dtype : Model.Scaling.SDt := match dtype with | none => default_scaled_dtype w.kind | some d => d\n"
+                 "  if ¬ ((supported_scaled_dtypes w.kind).contains dtype = true) then Except.error PyErr.TypeError else\n"
+                 "  Except.bind (Model.Scaling.window w.data.length start_index sample_count) (fun sc =>\n"
+                 "  Except.bind (Model.Scaling.convertData w dtype ((w.data.drop sc.1).take sc.2)) (fun converted_data =>\n"
+                 "  Except.bind (Model.Scaling.resultDtype dtype w.mode) (fun rdt =>\n"
+                 "    Except.ok (rdt, converted_data.map (Model.Scaling.scaleElem dtype.bits w.kind w.mode)))))")
+    m.out.append("")
+    m.out.append("/-- generated from the `scaled_data` property -/")
+    m.out.append("@[pygen] def scaled_data (w : Model.Scaling.Wf) : Except PyErr (Model.Scaling.SDt × List Model.Complex.Elem) := get_scaled_data w none (some 0) none")
+    m.out.append("")
+    return m
+
+
 MODULES = [
     # (output file, builder, dependencies by output name)
     ("TimeValueTuple", lambda repo, deps: gen_time_value_tuple(repo), []),
@@ -667,6 +726,7 @@ MODULES = [
     ("TestLoops", lambda repo, deps: gen_test_loops(repo, deps["DigitalState"]), ["DigitalState"]),
     ("PortLine", lambda repo, deps: gen_port_line(repo, deps["Port"]), ["Port"]),
     ("GetTimestamps", lambda repo, deps: gen_get_timestamps(repo, deps["Regular"]), ["Regular"]),
+    ("ScaledData", lambda repo, deps: gen_scaled_data(repo, deps["Scaling"]), ["Scaling"]),
 ]
 
 
